@@ -577,6 +577,33 @@ func gen(g *fw.Gen) {
 		}
 		return sb.String()
 	}
+	// sentences that are plain ASCII except for ONE variant word at the very end or the very start, at every byte
+	// length modulo 64 (a parser with an "ASCII only" fast path that scans in blocks)
+	for k, w := range words {
+		if k%3 != 0 {
+			continue
+		}
+		pad := strings.Repeat("x", g.Rng.Intn(64))
+		want := []string{"abandon", w.n}
+		in := " abandon " + w.v
+		if pad != "" {
+			want = append([]string{pad}, want...)
+			in = pad + in
+		} else {
+			in = in[1:]
+		}
+		if g.Rng.Intn(4) == 0 { // at the start instead
+			in = w.v + " abandon " + pad
+			want = []string{w.n, "abandon"}
+			if pad != "" {
+				want = append(want, pad)
+			}
+		}
+		if w.n == "" { // a variant that normalizes to nothing but white space contributes no word
+			continue
+		}
+		g.Emit("parse", fw.Pack([]byte(in), []byte(strings.Join(want, "\x00"))))
+	}
 	for len(words) > 0 {
 		n := 1 + g.Rng.Intn(24)
 		if n > len(words) {
